@@ -59,7 +59,10 @@ public:
     {
         T const value = std::generate_canonical<T, std::numeric_limits<T>::digits>(generator);
 
-        auto const iterator = std::lower_bound(weight_sums.begin(), weight_sums.end(), value);
+        // a value of exactly zero must not select leading entries with weight zero
+        auto const iterator = (value == T())
+            ? std::upper_bound(weight_sums.begin(), weight_sums.end(), value)
+            : std::lower_bound(weight_sums.begin(), weight_sums.end(), value);
 
         I const result = std::distance(weight_sums.begin(), iterator);
 
